@@ -928,8 +928,8 @@ class Sequence:
                 else:
                     arrays = element._data[chan]["array"]
                     for name, arr in arrays.items():
-                        pre_wait = np.zeros(int(delay / self.SR))
-                        post_wait = np.zeros(int((maxdelay - delay) / self.SR))
+                        pre_wait = np.zeros(int(round(delay * self.SR)))
+                        post_wait = np.zeros(int(round((maxdelay - delay) * self.SR)))
                         arrays[name] = np.concatenate((pre_wait, arr, post_wait))
 
         # Now forge all the elements as specified
